@@ -174,8 +174,15 @@ def h_construct_interleaved(ctx, k, via):
     perm = ctx.choice('order', perms)
     f = [193.0e12 + 100e9 * i for i in range(k)]
     ref = make_si(ctx, k, freqs=f, spacing=100e9, slot=50e9, extra=dict(
-        chromatic_dispersion=arr([1e-3 * (i + 1) for i in range(k)]), pmd=arr([1e-12 * (i + 1) for i in range(k)])))
+        chromatic_dispersion=arr([1e-3 * (i + 1) for i in range(k)]), pmd=arr([1e-12 * (i + 1) for i in range(k)]),
+        pdl=arr([0.1 * (i + 1) for i in range(k)]), latency=arr([1e-4 * (i + 1) for i in range(k)]),
+        roll_off=arr([0.1 + 0.01 * i for i in range(k)])))
     pre = snap(ref)
+    raw = ref._verif_raw
+    for i in range(k):
+        ctx.prove(f'construct:object_holds_the_shares_it_was_given[{i}]',
+                  And(eq(ref._pch[i], raw['p'][i]), eq(ref._signal_ratio[i], raw['s'][i]), eq(ref._ase_ratio[i], raw['a'][i]),
+                      eq(ref._nli_ratio[i], raw['n'][i])))
 
     def sub(idx):
         idx = list(idx)
@@ -201,6 +208,10 @@ def h_construct_interleaved(ctx, k, via):
         ctx.prove(f'construct:signal_share_follows_carrier[{i}]', eq(out._signal_ratio[i], pre['s'][i]))
         ctx.prove(f'construct:ase_share_follows_carrier[{i}]', eq(out._ase_ratio[i], pre['a'][i]))
         ctx.prove(f'construct:nli_share_follows_carrier[{i}]', eq(out._nli_ratio[i], pre['n'][i]))
+        ctx.prove(f'construct:accumulated_cd_pmd_pdl_latency_follow_carrier[{i}]',
+                  float(out.chromatic_dispersion[i]) == 1e-3 * (i + 1) and float(out.pmd[i]) == 1e-12 * (i + 1) and
+                  float(out.pdl[i]) == 0.1 * (i + 1) and float(out.latency[i]) == 1e-4 * (i + 1) and float(out.roll_off[i]) == 0.1 + 0.01 * i,
+                  info=dict(order=list(perm), pdl=[float(x) for x in out.pdl], cd=[float(x) for x in out.chromatic_dispersion]))
         ctx.prove(f'construct:cd_pmd_follow_carrier[{i}]', out.chromatic_dispersion[i] == ref.chromatic_dispersion[i]
                   and out.pmd[i] == ref.pmd[i])
     prove_invariant(ctx, out, 'construct')
